@@ -55,12 +55,24 @@ char *fgets(char *buf, int size, FILE *fp) {
   __CPROVER_assume(buf[0] != 0 && buf[1] != 0 && buf[2] != 0 && buf[3] != 0);
   return buf;
 }
+/* units that read binary records with a length field (observe records): a bounded-tier switch makes every 8-byte read a length
+ * in -1..G_SIZE_MAX so that the record bodies allocated from it have bounded size */
+#ifndef FREAD_CAP
+#define FREAD_CAP 320
+#endif
+#ifndef G_SIZE_MAX
+#define G_SIZE_MAX 8
+#endif
+int G_size_reads_bounded; long nondet_io_size(void);
 size_t fread(void *p, size_t sz, size_t n, FILE *fp) {
   __CPROVER_assert(fp == G_live_fp && G_live_open > 0, "records are only read from the open live file");
   __CPROVER_assert(__CPROVER_w_ok(p, sz * n), "fread destination writable");
   if (G_reads >= G_read_limit || nondet_io_fail()) return 0;
   G_reads++;
-  if (sz * n) __CPROVER_havoc_slice(p, sz * n);
+  if (G_size_reads_bounded && sz * n == sizeof(long)) { long v = nondet_io_size(); __CPROVER_assume(v >= -1 && v <= G_SIZE_MAX); *(long *)p = v; return n; }
+  /* arbitrary bytes by a constant-trip loop (__CPROVER_havoc_slice on struct objects made cbmc 6.11 abort in boolbv_get) */
+  __CPROVER_assert(sz * n <= FREAD_CAP, "fread size within the stub's capacity");
+  { unsigned char *pp = p; for (size_t i = 0; i < FREAD_CAP; i++) if (i < sz * n) pp[i] = nondet_io_byte(); }
   return n;
 }
 int rename(const char *from, const char *to) {
